@@ -121,6 +121,9 @@ class DashValidator(DashElement):
             errors=self.prev_manifest.get_errors()))
         self.prev_manifest.reset_errors()
         self.manifest = Manifest(self, self.url, self.mode, self.xml)
+        if self.manifest.availabilityStartTime is None:
+            # reported by validate()
+            return False
         return await self.manifest.merge_previous_element(self.prev_manifest)
 
     def has_errors(self) -> bool:
@@ -230,6 +233,11 @@ class DashValidator(DashElement):
         if self.xml is None:
             if not await self.load():
                 return False
+        if self.mode == 'live' and self.manifest.availabilityStartTime is None:
+            # no segment availability time can be calculated without it.
+            # validate_self() reports the missing attribute
+            self.manifest.validate_self()
+            return self.has_errors()
         await self.prefetch_media_info()
         self.progress.reset(self.manifest.num_tests())
         if self.options.save:
@@ -245,9 +253,10 @@ class DashValidator(DashElement):
             age = self.manifest.publishTime - self.prev_manifest.publishTime
             fmt = (r'Manifest should have updated by now. minimumUpdatePeriod is {0} but ' +
                    r'manifest has not been updated for {1} seconds')
-            self.attrs.check_less_than(
-                age, 3 * self.manifest.minimumUpdatePeriod,
-                fmt.format(self.manifest.minimumUpdatePeriod, age.total_seconds()))
+            if self.manifest.minimumUpdatePeriod is not None:
+                self.attrs.check_less_than(
+                    age, 3 * self.manifest.minimumUpdatePeriod,
+                    fmt.format(self.manifest.minimumUpdatePeriod, age.total_seconds()))
         await self.manifest.validate()
         if self.options.save and self.options.prefix:
             kids = set()
@@ -306,7 +315,11 @@ class DashValidator(DashElement):
             return
         if not self.elt.check_not_none(self.manifest):
             return
-        next_refresh = self.manifest.publishTime + self.manifest.minimumUpdatePeriod
+        update_period = self.manifest.minimumUpdatePeriod
+        if update_period is None:
+            # the manifest does not announce when it will change: poll it
+            update_period = datetime.timedelta(seconds=2)
+        next_refresh = self.manifest.publishTime + update_period
         self.log.debug(
             'publishTime=%s minimumUpdatePeriod=%s nextUpdate=%s',
             self.manifest.publishTime, self.manifest.minimumUpdatePeriod,
